@@ -577,4 +577,18 @@ example : ∀ st ∈ c16CexChain2, st.ok := by
   simp [c16CexChain2] at h
   rcases h with h | h <;> subst h <;> simp [Step.ok, Init.cols, lookupCol]
 
+/-! ### the hypotheses used above are satisfiable by non-trivial values -/
+
+example : ({ clauses := true, attrs := true, assigns := true } : CloneCfg).full := ⟨rfl, rfl, rfl⟩
+example : c16OneRow.WF := ⟨by decide, fun k r h => by
+  simp only [c16OneRow] at h
+  split at h
+  · rename_i hk; subst hk; cases h; decide
+  · cases h⟩
+/-- a live value colliding with the stored key 1 -/
+example : visible c16Schema (fun c => if c = 0 then 1 else 2) = true := by decide
+example : ∃ old, c16OneRow.rows (targetKey c16OneRow (fun c => if c = 0 then 1 else 2)) = some old := ⟨_, rfl⟩
+example : firstMatch c16Schema c16OneRow [.eq 1 1] ≠ none := by decide
+example : firstMatch c16Schema c16OneRow [.eq 1 2] = none := by decide
+
 end Gorm
